@@ -45,7 +45,7 @@ def main():
         })
     man = {
         "version": 1,
-        "setup_cmd": "cd /verif/coq && coq_makefile -f _CoqProject -o Makefile && timeout 3000 make -j16",
+        "setup_cmd": "cd /verif && ./check setup",
         "hooks": {
             "guard": "BENEDIKTALKIN_KAPPADATA_VERIF",
             "enable": "no source hooks: the harness observes through public setters and recording samplers; "
